@@ -260,7 +260,8 @@ def merge(results):
 
 
 def write_replay(prop, vio, tier, seed):
-    rdir = os.path.join(VERIF, 'replays')
+    rdir = os.environ.get('VERIF_REPLAY_DIR',
+                          os.path.join(VERIF, 'replays'))
     os.makedirs(rdir, exist_ok=True)
     path = os.path.join(rdir, f'{prop}-{h(vio["key"])}.json')
     with open(path, 'w') as fil:
@@ -337,7 +338,8 @@ def main_check(prop, tier, seed, replay=None):
                 'level': mod.LEVEL, 'coverage': coverage,
                 'assumptions': mod.ASSUMPTIONS, 'wall_s': round(wall, 2),
                 'violations': len(new_vios)}
-        edir = os.path.join(VERIF, 'evidence')
+        edir = os.environ.get('VERIF_EVIDENCE_DIR',
+                              os.path.join(VERIF, 'evidence'))
         os.makedirs(edir, exist_ok=True)
         with open(os.path.join(edir, f'{prop}.json'), 'w') as fil:
             json.dump(evid, fil, indent=1, sort_keys=True)
